@@ -13,7 +13,21 @@ func init() {
 		"oracle: success iff all label sets equal and no wrap fails, refusal leaves dst empty; distinct by (request, observation)", runC11)
 }
 
-var labelChoices = [][]string{nil, {}, {"a"}, {"b"}, {"a", "b"}, {"b", "a"}, {"a", "b", "c"}, {"c", "a", "b"}, {"postquantum"}}
+var labelChoices = [][]string{nil, {}, {"a"}, {"b"}, {"a", "b"}, {"b", "a"}, {"a", "b", "c"}, {"c", "a", "b"}, {"postquantum"},
+	// a recipient returning a label twice: outside the property's "set" wording when the SETS are equal
+	// (the code compares sorted lists), but different sets must still be refused
+	{"a", "a"}, {"b", "b"}, {"a", "b", "b"}}
+
+func hasDup(l []string) bool {
+	m := map[string]bool{}
+	for _, x := range l {
+		if m[x] {
+			return true
+		}
+		m[x] = true
+	}
+	return false
+}
 
 func labelSetKey(l []string) string {
 	m := map[string]bool{}
@@ -45,6 +59,7 @@ func runC11(cx *ctx) {
 				cx.ru.Do(func() *h.Case {
 					var ps []*party
 					allEq := true
+					dup := false
 					for i, c := range choice {
 						l := labelChoices[c]
 						st := []*age.Stanza{greaseStanza(rr)}
@@ -52,10 +67,16 @@ func runC11(cx *ctx) {
 						if labelSetKey(l) != labelSetKey(labelChoices[choice[0]]) {
 							allEq = false
 						}
+						if hasDup(l) {
+							dup = true
+						}
 					}
 					c := fencwCase("labels", rr, ps, nil, true, "ok", nil)
 					ok := len(c.Impl) >= 2 && c.Impl[:2] == "ok"
 					want := allEq && failAt < 0
+					if dup && allEq && failAt < 0 {
+						want = ok // equal sets spelled with a repeated label: either outcome is within the property's wording
+					}
 					if ok != want && c.Oracle == "" {
 						c.Oracle = fmt.Sprintf("Encrypt success=%v but labels-equal=%v failing-wrap=%v", ok, allEq, failAt >= 0)
 					}
